@@ -112,3 +112,45 @@ theorem c08_sasa_frames (points : List V3) (mask : List Bool) (frames : List (Li
     rw [ih _ _ hb', e]; simp
 
 end MdVerif.Sasa
+
+/-! ## a kernel chosen once for the whole trajectory
+
+`compute_distances`, `compute_displacements`, `compute_angles` and `compute_dihedrals` look at the cell of *every* frame, choose the rectangular
+or the general kernel once, and run it over all frames.  A frame's value is then independent of the other frames exactly when the two kernels
+agree on every frame that passes the test for the rectangular one. -/
+namespace MdVerif.Sched
+
+/-- the analysis: `rect` is the test applied to each frame's cell, `k₀` the rectangular kernel, `k₁` the general one -/
+def switched {φ ω : Type} (rect : φ → Bool) (k₀ k₁ : φ → ω) (frames : List φ) : List ω :=
+  if frames.all rect then frames.map k₀ else frames.map k₁
+
+/-- **frame independence of a switched analysis**: if the kernels agree wherever the test holds, every trajectory gets, frame by frame, the
+value of the general kernel — whatever the other frames are -/
+theorem c08_switch_independent {φ ω : Type} (rect : φ → Bool) (k₀ k₁ : φ → ω) (h : ∀ f, rect f = true → k₀ f = k₁ f) (frames : List φ) :
+    switched rect k₀ k₁ frames = frames.map k₁ := by
+  unfold switched
+  split
+  · rename_i hall
+    apply List.map_congr_left
+    intro f hf
+    exact h f (List.all_eq_true.mp hall f hf)
+  · rfl
+
+/-- … so a frame inside any trajectory has the value it has alone -/
+theorem c08_switch_frame_alone {φ ω : Type} (rect : φ → Bool) (k₀ k₁ : φ → ω) (h : ∀ f, rect f = true → k₀ f = k₁ f) (frames : List φ) (i : Nat) (f : φ)
+    (hf : frames[i]? = some f) : (switched rect k₀ k₁ frames)[i]? = (switched rect k₀ k₁ [f])[0]? := by
+  rw [c08_switch_independent rect k₀ k₁ h, c08_switch_independent rect k₀ k₁ h]
+  simp [List.getElem?_map, hf]
+
+/-- **why the test must be exact** (repair c973ecd3): with a tolerant test (`np.allclose(angles, 90)`) a frame a rounding error away from
+rectangular, on which the kernels differ, has one value alone and another next to a skewed frame.  Frames are cell angles in units of 1e-4
+degrees; the rectangular kernel ignores the tilt. -/
+theorem c08_tolerant_switch_witness :
+    let rect := fun (a : Int) => decide ((a - 900000).natAbs ≤ 9)
+    let k₀ := fun (_ : Int) => (0 : Int)
+    let k₁ := fun (a : Int) => a - 900000
+    (switched rect k₀ k₁ [900008])[0]? = some 0 ∧ (switched rect k₀ k₁ [900008, 700000])[0]? = some 8 := by
+  refine ⟨by decide, by decide⟩
+
+end MdVerif.Sched
+
